@@ -309,6 +309,8 @@ def r2(ctx):
     if ok:
         ga = guard_atoms(mcfg, mcfg.node_containing(addc[0]))
         ok = all(("%s.is_none()" % g, False) in ga for g in ("gt_mother", "gt_father", "gt_child")) and ("mendelian_conflict(gt_mother, gt_father, gt_child)", True) in ga
+        if not ok and any("is_none()" in t_ and ("any(" in t_ or "all(" in t_) for t_, p_ in ga) and any(t_.startswith("mendelian_conflict(") and p_ for t_, p_ in ga):
+            ok = None  # the presence test is quantified over a sequence of the three genotypes: not read by this rule
     ctx.ob(mc.qual, "conflict-iff-all-present-and-conflicting", ok, mc.loc(), "an index is a conflict exactly when all three genotypes are present and mendelian_conflict(mother, father, child) holds" if ok else "conflict detection guard changed")
     # the loop that walks the three genotype columns in parallel: zip(A, B, C) with targets (x, y, z); A, B, C (locals resolved)
     # are the columns of trio.mother / trio.father / trio.child, and mendelian_conflict is called as (x, y, z) in that order
